@@ -597,8 +597,23 @@ namespace sim
                   }
             }
           for (auto &m : v.GetObject())
-            if (!length_rules_ok(m.value, rule, depth + 1))
-              return false;
+            {
+              // model lists at the feature level of a slab or fault are only defaults for segments that
+              // declare none of that kind; unused defaults are never parsed, so nothing is demanded of them
+              const std::string mk = m.name.GetString();
+              if ((model == "subducting plate" || model == "fault") && mk.size() > 7 && mk.compare(mk.size() - 7, 7, " models") == 0)
+                {
+                  bool used = false;
+                  if (v.HasMember("segments") && v["segments"].IsArray())
+                    for (auto &seg : v["segments"].GetArray())
+                      if (seg.IsObject() && !seg.HasMember(mk.c_str()))
+                        used = true;
+                  if (!used)
+                    continue;
+                }
+              if (!length_rules_ok(m.value, rule, depth + 1))
+                return false;
+            }
         }
       else if (v.IsArray())
         for (auto &e : v.GetArray())
@@ -770,7 +785,7 @@ namespace sim
     else if (mode < 0.94)
       {
         // raw byte strings
-        const int k = static_cast<int>(rng.below(8));
+        const int k = static_cast<int>(rng.below(10));
         if (k == 0) bytes = "";
         else if (k == 1) bytes = std::string(1, static_cast<char>(rng.below(256)));
         else if (k == 2) bytes = std::string(static_cast<size_t>(rng.range(1, 1 << 20)), '[');
@@ -783,6 +798,19 @@ namespace sim
               bytes.push_back(static_cast<char>(rng.below(256)));
           }
         else if (k == 5) bytes = "{\"version\":\"1.1\",\"features\":[" + std::string(static_cast<size_t>(rng.range(1, 50000)), ' ') + "]}";
+        else if (k == 8 || k == 9)
+          {
+            // deep nesting behind text that is easy to mis-scan: escaped quotes and backslashes at the end of
+            // strings, quotes and brackets inside comments, brackets inside strings
+            static const char *prefix[] = {"{\"a\":\"C:\\\\wb\\\\\",\"b\":", "{\"a\":\"say \\\"hi\\\"\",\"b\":", "/* \" [ */ {\"b\":", "// it's \" [[[\n{\"b\":",
+                                           "{\"a\":\"]]]]}}}}\",\"b\":", "{\"a\":\"\\\\\\\"\",\"b\":", "{\"version\":\"1.1\",\"features\":[],\"x\":\"\\\\\",\"y\":"
+                                          };
+            bytes = prefix[rng.below(7)];
+            const size_t n = static_cast<size_t>(rng.range(k == 8 ? 1500 : 100000, 1 << 20));
+            bytes += std::string(n, rng.chance(0.5) ? '[' : '{');
+            if (rng.chance(0.3))
+              bytes += std::string(n, ']');
+          }
         else if (k == 6) bytes = "\xef\xbb\xbf" + base.content;
         else bytes = "{\"version\":\"1.1\",\"features\":[],\"x\":\"\xff\xfe\x00\"}";
         s.generator = "c12/raw";
